@@ -107,6 +107,7 @@ func VerifH18b() {
 	q := nondetBytes(3)
 	vAssume(vNoNUL(q))
 	vAssume(q[0] != 'C') // 'C…' is the harness's own marker for the COPY statement
+	vAssume(q[0] != 'R') // 'R…' is the marker for a query the parser rejects
 	if nondetBool() {
 		// a large (but legal) query: three symbolic bytes and a long tail, so that
 		// the message is bigger than the 4 KiB granule and bufio's chunking matters
@@ -126,6 +127,9 @@ func VerifH18b() {
 		keptQueries = append(keptQueries, query)
 		keptCopies = append(keptCopies, append([]byte{}, query...))
 		isCopy := len(query) > 0 && query[0] == 'C'
+		if len(query) > 0 && query[0] == 'R' {
+			return nil, errVerifParse // rejected, but the holder keeps the text it was shown
+		}
 		fn := func(ctx context.Context, dw DataWriter, params []Parameter) error {
 			if isCopy {
 				if _, err := dw.CopyIn(BinaryFormat); err != nil {
@@ -147,6 +151,24 @@ func VerifH18b() {
 		input = append(input, vMsgBytes('Q', vCStr([]byte("C")))...)
 		steps++
 		vReach("abandoned-copy")
+	}
+	rejected := nondetBool() // a Parse the parser rejects, then messages skipped until Sync
+	if rejected {
+		rq := vCat([]byte("R"), nondetBytes(2), []byte("ejected-query-text"))
+		vAssume(vNoNUL(rq))
+		skipped := make([]byte, 24)
+		for i := range skipped {
+			skipped[i] = 'Z'
+		}
+		input = vCat(input,
+			vMsgBytes('P', vCat(vCStr(nil), vCStr(rq), vU16(0))),
+			vMsgBytes('H', nil),
+			vMsgBytes('B', skipped),
+			vMsgBytes('H', nil),
+			vMsgBytes('D', skipped[:9]),
+			vMsgBytes('S', nil))
+		steps += 6
+		vReach("rejected-parse-then-skipped-messages")
 	}
 	input = vCat(input,
 		vMsgBytes('P', vCat(vCStr(nil), vCStr(q), vU16(0))),
@@ -181,7 +203,10 @@ func VerifH18b() {
 	}
 	want := 3
 	if abandonCopy {
-		want = 4
+		want++
+	}
+	if rejected {
+		want++
 	}
 	vAssert("queries-were-retained", len(keptQueries) == want)
 	vAssert("parameter-was-retained", keptParamCopy != nil && vEqBytes(keptParamCopy, pv))
@@ -248,5 +273,72 @@ func VerifH03c() {
 	}
 	if p1 {
 		vReach("second-parsed")
+	}
+}
+
+// ---------------------------------------------------------------------------
+// H10f — the default limit at the server level (C10): a server configured
+// with a non-positive size (through the option, the exported field, or not at
+// all) serves a message of BODY bytes — larger than any small limit and than
+// the 4 KiB allocation granule — normally, and skips one that declares more
+// than 16 MiB with one 54000 ErrorResponse, then serves the next message.
+// ---------------------------------------------------------------------------
+func VerifH10f() {
+	how := vChoose(4) // 0 no option, 1 option 0, 2 option -1, 3 exported field negative
+	w := &vWorld{parseMenu: -2, execMenu: 1}
+	var opts []OptionFn
+	switch how {
+	case 1:
+		opts = append(opts, MessageBufferSize(0))
+	case 2:
+		opts = append(opts, MessageBufferSize(-1))
+	}
+	srv, err := NewServer(w.parse, opts...)
+	vAssert("newserver-ok", err == nil)
+	if how == 3 {
+		srv.BufferedMsgSize = -(1 + int(nondetByte()))
+	}
+	body := vParam("BODY", 5000)
+	q := make([]byte, body)
+	for i := range q {
+		q[i] = 'a'
+	}
+	input := vCat(vStartup(vKV([]byte("user"), []byte("u"))), vMsgBytes('Q', vCStr(q)))
+	oversized := vParam("OVERSIZED", 0) > 0
+	if oversized {
+		input = vCat(input, vMsgBytes(nondetByte(), make([]byte, (1<<24)+1+vChoose(2))), vMsgBytes('Q', vCStr([]byte("b"))))
+	}
+	input = vCat(input, vMsgBytes('X', nil))
+	conn := vNewConn(input)
+	srv.serve(context.Background(), conn) //nolint
+	vAssert("wire-wellformed", vWireOK(conn.out))
+	parses := 0
+	for _, ev := range w.events {
+		if ev.kind == 'p' {
+			parses++
+			if parses == 1 {
+				vAssert("large-message-under-default-limit-served", len(ev.query) == body)
+			} else {
+				vAssert("message-after-oversized-intact", string(ev.query) == "b")
+			}
+		}
+	}
+	typesOut := vTypes(conn.out)
+	if oversized {
+		vAssert("both-queries-parsed", parses == 2)
+		vAssert("one-error-for-the-oversized-message", vCount(typesOut, 'E') == 1)
+		msgs, _ := vFrames(conn.out)
+		for _, m := range msgs {
+			if m.typ == 'E' {
+				code, _ := vErrField(m.body, 'C')
+				vAssert("oversized-class-program-limit-exceeded", string(code) == "54000")
+			}
+		}
+		vReach("beyond-the-default-limit")
+	} else {
+		vAssert("query-parsed", parses == 1)
+	}
+	if how == 3 {
+		vReach("negative-size-on-the-exported-field")
 	}
 }
